@@ -2,10 +2,12 @@ package fam
 
 import (
 	"fmt"
+	"time"
 
 	"github.com/glebziz/fs_db/verifh/enum"
 	"github.com/glebziz/fs_db/verifh/model"
 	"github.com/glebziz/fs_db/verifh/seq"
+	"github.com/glebziz/fs_db/verifrt/vrt"
 )
 
 // bulk: the size dimension of C03 / C14, beyond the two keys and handful of writes of the history
@@ -15,6 +17,17 @@ import (
 func init() {
 	enum.Register("bulk", func(p string) *enum.Family {
 		maxn := atoi(params(p)["maxn"], 40)
+		// large=1: sparse large sizes around powers of two and round numbers (batch and capacity
+		// boundaries), three shapes that produce one big clean-up batch, few observed keys
+		large := atoi(params(p)["large"], 0) != 0
+		sizes := []int{}
+		if large {
+			sizes = []int{63, 64, 65, 127, 128, 129, 255, 256, 257, 511, 512, 513, 999, 1000, 1001, 1003, 1023, 1024, 1025}
+			if maxn > 1025 {
+				sizes = append(sizes, 2047, 2048, 2049)
+			}
+			maxn = sizes[len(sizes)-1]
+		}
 		shapes := []string{
 			"RC transaction overwrites one key n times, Commit",
 			"RR transaction writes n keys, Commit, Reopen",
@@ -25,18 +38,26 @@ func init() {
 		}
 		keys := make([]string, maxn)
 		for i := range keys {
-			keys[i] = fmt.Sprintf("k%02d", i)
+			keys[i] = fmt.Sprintf("k%04d", i)
 		}
 		type bc struct {
 			n, shape     int
 			close, eager bool
 		}
 		var cases []bc
-		for n := 1; n <= maxn; n++ {
-			for sh := range shapes {
-				for _, cl := range []bool{false, true} {
-					for _, eager := range []bool{true, false} {
-						cases = append(cases, bc{n, sh, cl, eager})
+		if large {
+			for _, n := range sizes {
+				for _, sh := range []int{0, 2, 3} {
+					cases = append(cases, bc{n, sh, false, true})
+				}
+			}
+		} else {
+			for n := 1; n <= maxn; n++ {
+				for sh := range shapes {
+					for _, cl := range []bool{false, true} {
+						for _, eager := range []bool{true, false} {
+							cases = append(cases, bc{n, sh, cl, eager})
+						}
 					}
 				}
 			}
@@ -91,7 +112,11 @@ func init() {
 			return h
 		}
 		mk := func(closeFirst bool) *seq.Family {
-			f := &seq.Family{Opt: seq.Options{Slots: 1, ObsKeys: append(append([]string{}, keys...), neverKey), Spec: spec()}}
+			obs := keys
+			if large {
+				obs = keys[:3]
+			}
+			f := &seq.Family{Opt: seq.Options{Slots: 1, ObsKeys: append(append([]string{}, obs...), neverKey), Spec: spec()}}
 			f.Opt.Epilogue = func(r *seq.Runner) *seq.Mismatch { return DiskEpilogue(r, closeFirst) }
 			return f
 		}
@@ -105,6 +130,12 @@ func init() {
 			Run: func(i int64) *enum.Outcome {
 				c := cases[i]
 				hist := history(c)
+				if large {
+					// thousands of operations in one execution: the default step horizon is for short programs
+					old := vrt.Opt
+					vrt.Opt = vrt.Options{LongTimer: time.Minute, StepHorizon: 50_000_000}
+					defer func() { vrt.Opt = old }()
+				}
 				res, verdict := seq.RunOne(fams[c.close], hist, c.eager)
 				o := &enum.Outcome{States: []uint64{uint64(i)}}
 				if res != nil {
